@@ -151,11 +151,11 @@ def _doy(ctx, rep, eng, sweep):
         ld = ("attr", ("param", 0, rule.params[1]), "day")
         mlen = [31, 29, 31, 30, 31, 30, 31, 31, 30, 31, 30, 31]
         pairs = [(m, d) for m in range(1, 13) for d in (1, 15, 28, 29, 30, 31) if d <= mlen[m - 1]]
-        from .relspec import stride
-        step = stride(len(sweep), 400 if len(sweep) > 5000 else 150)
+        from .relspec import sample
+        tss = sample(sweep, 400 if len(sweep) > 5000 else 150)
 
         def cases():
-            for ts in sweep[::step] + [t for t in sweep if (t.month, t.day) in ((2, 28), (2, 29), (3, 1), (12, 31), (1, 1))]:
+            for ts in tss:
                 for m, d in pairs:
                     yield {("ts",): ts, lm: m, ld: d}, (ts, m, d)
 
@@ -179,8 +179,8 @@ def _pod(ctx, rep, eng, sweep):
     if base is None:
         rep.undecided("nearest-future", "part-of-day shape", "-", "no part-of-day-only shape is reachable")
         return
-    from .relspec import stride
-    step = stride(len(sweep), 300 if len(sweep) > 5000 else 90)
+    from .relspec import sample
+    tss = sample(sweep, 300 if len(sweep) > 5000 else 90)
     for rule in _unary(ctx, "isPOD"):
         c = rule_construct(rule, "part of day")
         bad = None
@@ -194,7 +194,7 @@ def _pod(ctx, rep, eng, sweep):
                     raise Undecided(run.error)
                 summ = Summary(run.paths)
                 h_from = table[key][0]
-                for ts in sweep[::step]:
+                for ts in tss:
                     res = summ.evaluate({("ts",): ts})
                     n += 1
                     today = (ts.hour, ts.minute) < (h_from, 0)
